@@ -430,7 +430,7 @@ func init() {
 		},
 		Flavour: "inst-ctl", QuickBudgetS: 300, ThoroughBudgetS: 1800,
 		Spaces: func(tier string) []*core.Space {
-			sp := []*core.Space{c10Space(tier), c10DispatchSpace(2), c10DispatchSpace(3)}
+			sp := []*core.Space{c10Space(tier), c10DispatchSpace(2), c10DispatchSpace(3), racePassSpace("c10", 40)}
 			if tier == "thorough" {
 				sp = append(sp, c10DispatchSpace(4))
 			}
